@@ -430,6 +430,59 @@ func c05JudgeLocal(c c05Case) (clause, detail string) {
 				return c.Op + "-source", fmt.Sprint(errSrc)
 			}
 		}
+	case "overwrite":
+		// Copy/Move onto an EXISTING destination, every source kind x destination kind, with and without
+		// permission to overwrite: Opt bit0 = move, bit1 = source is a collection, bit2 = destination is a
+		// collection (holding a member of its own), bit3 = NoOverwrite
+		move, srcDir, dstDir, noOW := c.Opt&1 != 0, c.Opt&2 != 0, c.Opt&4 != 0, c.Opt&8 != 0
+		src := "d/" + c.Name
+		if srcDir {
+			src = "d/" + c.Name + ".dir"
+		}
+		dst := c.Name + "-old"
+		if dstDir {
+			os.MkdirAll(filepath.Join(root, dst), 0o755)
+			os.WriteFile(filepath.Join(root, dst, "old-member"), []byte("OLD"), 0o644)
+		} else {
+			os.WriteFile(filepath.Join(root, dst), []byte("OLD-CONTENT-LONGER-THAN-THE-NEW-ONE"), 0o644)
+		}
+		before, _ := harness.Snapshot(root)
+		var err error
+		if move {
+			err = cl.Move(ctx, arg(src), arg(dst), &webdav.MoveOptions{NoOverwrite: noOW})
+		} else {
+			err = cl.Copy(ctx, arg(src), arg(dst), &webdav.CopyOptions{NoOverwrite: noOW})
+		}
+		after, _ := harness.Snapshot(root)
+		if noOW {
+			if err == nil {
+				return "overwrite-not-refused", "no error although the destination exists and overwriting was not allowed"
+			}
+			if after.Canon() != before.Canon() {
+				return "overwrite-refused-but-changed", fmt.Sprintf("before %s after %s", before.Canon(), after.Canon())
+			}
+			return "", ""
+		}
+		if err != nil {
+			return "overwrite-error", fmt.Sprintf("%s -> existing %s: %v", src, dst, err)
+		}
+		want := before.Clone()
+		for p := range before {
+			if p == "/"+dst || strings.HasPrefix(p, "/"+dst+"/") {
+				delete(want, p)
+			}
+		}
+		for p, n := range before {
+			if p == "/"+src || strings.HasPrefix(p, "/"+src+"/") {
+				want["/"+dst+strings.TrimPrefix(p, "/"+src)] = n
+				if move {
+					delete(want, p)
+				}
+			}
+		}
+		if after.Canon() != want.Canon() {
+			return "overwrite-result", fmt.Sprintf("tree %s want %s", after.Canon(), want.Canon())
+		}
 	case "copy", "move":
 		dstName := c.Name2
 		if dstName == "" {
@@ -552,6 +605,9 @@ func init() {
 		}
 		// LocalFileSystem on disk
 		for _, n := range c05Names {
+			for o := 0; o < 16; o++ {
+				cases = append(cases, c05Case{Backend: "localfs", Endpoint: "http://h/", Op: "overwrite", Name: n, Rel: o%3 == 0, Opt: o})
+			}
 			for _, op := range append(append([]string(nil), ops...), "copysib", "movesib") {
 				for _, rel := range []bool{false, true} {
 					opts := []int{0}
